@@ -16,6 +16,9 @@ Vectors == [key        |-> LibDerive(VecPw, VecKS, BK_Key),
             ivHmacVal  |-> LibIV(VecPS, BK_HmacVal),
             encHmacKey |-> Enc("p", VecKey, LibIV(VecPS, BK_HmacKey), VecHK)]
 
+(* little-endian block keys are exact and pairwise different around every byte boundary *)
+ASSUME LE32Exact({0, 1, 254, 255, 256, 257, 511, 512, 65535, 65536, 65537, 16777215, 16777216, 16777217, 2147483647})
+
 ASSUME PrintT(<<"PROGRAM", ToJson(Prog)>>)
 ASSUME PrintT(<<"VECTORS", ToJson(Vectors)>>)
 ====
